@@ -1390,6 +1390,8 @@ func (tx *tx) commit() error {
 		return nil
 	}
 	defer func() { tx.tx, tx.txrrw = nil, nil }()
+	verifPoint("commit.before")
+	defer verifPoint("commit.after")
 	return tx.tx.Commit()
 }
 
